@@ -160,7 +160,7 @@ def multiStable (k : MultiKind) (n : Nat) : Bool :=
 mutual
 def stable : Err → Bool
   | .leaf _ k => leafStable k
-  | .barrier _ _ h => stable h
+  | .barrier _ m h => (m.recv != some []) && stable h   -- received details, when kept, are not empty (a local barrier always has some)
   | .wrap _ k c => wrapStable k (text c) && stable c
   | .second _ c s => stable c && stable s
   | .multi _ k cs => multiStable k cs.length && stableL cs
